@@ -5,6 +5,7 @@ import copy
 
 import core
 import s3_util as S3
+import t2_util as T
 import uwgutil as U
 
 MODULE = 'UwgVerif.Props.C17'
@@ -433,6 +434,258 @@ def extended_histories(chk, work, uwg):
                mismatches=bad_trace, branches=refusals)
 
 
+# ----------------------------------------------------------------------------------------------------------
+# Third round: histories in which (1) a call FAILS because of a parameter set after a successful run, (2) the
+# rural file changes - by path or in place - to a file that differs in one interpreted header part, (3) the
+# stock names a custom reference building with the era written in another letter case. All judged the same
+# way: the final generate(); simulate() on the object with the past against the same two calls on a fresh
+# object with the same current parameter values - both fail at the same call with the same exception class,
+# or both return with the same state digest after generate() and the same hourly records.
+FAILING = [   # (parameter, value that makes generate() or simulate() fail, what happens on a fresh object)
+    ('droad', 4.5, 'generate refuses: pavement deeper than the deepest ground-temperature depth'),
+    ('droad', 10.0, 'generate refuses'),
+    ('dtsim', 7, 'generate refuses: not a divisor of 3600'),
+    ('dtsim', 1800, 'simulate: the model\'s own FATAL ERROR after some records'),
+    ('h_ref', 5.0, 'simulate: IndexError at the first step'),
+    ('h_wind', 0.0, 'simulate: ValueError at the first step'),
+    ('h_obs', 0.0, 'simulate: ZeroDivisionError at the first step'),
+    ('windmin', 0.0, 'simulate: ZeroDivisionError at the first calm hour'),
+    ('bldheight', 1000.0, 'simulate: canyon temperature check at the first step'),
+    ('sensanth', 1e5, 'simulate: canyon temperature check at the first step'),
+    ('blddensity', 0.0, 'generate: ZeroDivisionError'),
+    ('charlength', 0.0, 'generate: ZeroDivisionError'),
+    ('kroad', 0.0, 'generate: Material refuses'),
+    ('nday', 0, 'generate: IndexError'),
+    ('dtweather', 7200, 'simulate: IndexError after some records'),
+    ('bld', [('LargeOffice', 'pst80', 1.0)], 'generate refuses: no such building type'),
+]
+
+
+def failing_histories(rng, quick):
+    hs = [('fixed: run, then a pavement deeper than the ground-temperature depths',
+           [('gen',), ('sim',), ('set', 'droad', 4.5)]),
+          ('fixed: run, deep pavement, failed generate, pavement set back',
+           [('gen',), ('sim',), ('set', 'droad', 4.5), ('gen',), ('set', 'droad', 0.5)]),
+          ('fixed: run, deep pavement, failed generate AND simulate, shallower pavement',
+           [('gen',), ('sim',), ('set', 'droad', 10.0), ('gen',), ('sim',), ('set', 'droad', 0.25)])]
+    shapes = ['run-then-bad', 'run-bad-calls-good', 'bad-first-then-good', 'run-bad-gen-good-otherbad']
+    todo = FAILING if not quick else FAILING[2:]
+    for k, (p, bad, what) in enumerate(todo * (1 if quick else 4)):
+        shape = shapes[k % len(shapes)] if quick else shapes[(k // len(FAILING)) % len(shapes)]
+        good = '<initial>'
+        if shape == 'run-then-bad':
+            ops = [('gen',), ('sim',), ('set', p, bad)]
+        elif shape == 'run-bad-calls-good':
+            ops = [('gen',), ('sim',), ('set', p, bad), ('gen',), ('sim',), ('set', p, good)]
+        elif shape == 'bad-first-then-good':
+            ops = [('set', p, bad), ('gen',), ('sim',), ('write',), ('set', p, good)]
+        else:
+            p2, bad2, _ = rng.choice([f for f in FAILING if f[0] != p])
+            ops = [('gen',), ('sim',), ('set', p, bad), ('gen',), ('set', p, good), ('set', p2, bad2)]
+        hs.append(('%s: %s = %r (%s)' % (shape, p, bad, what), ops))
+    return hs
+
+
+def rural_histories(rng, quick, fam):
+    names = [n for n in fam if n != 'base']
+    shapes = ['path: base -> X', 'path: X -> base', 'in place: base -> X', 'in place: X -> base']
+    hs = []
+    for k, x in enumerate(names * (1 if quick else 4)):
+        shape = shapes[(k + k // len(names)) % len(shapes)]
+        mid = [('sim',)] if k % 3 == 0 else []
+        if shape == 'path: base -> X':
+            ops = [('gen',)] + mid + [('epw', x)]
+        elif shape == 'path: X -> base':
+            ops = [('epw', x), ('gen',)] + mid + [('epw', 'base')]
+        elif shape == 'in place: base -> X':
+            ops = [('private', 'base'), ('gen',)] + mid + [('rewrite', x)]
+        else:
+            ops = [('private', x), ('gen',)] + mid + [('rewrite', 'base')]
+        hs.append(('%s, X = %s (%s)' % (shape, x, fam[x][1]), ops))
+    # two changes in a row, and a change made between generate() and simulate()
+    hs.append(('path: base -> loc-toronto -> toronto file', [('gen',), ('epw', 'loc-toronto'), ('gen',), ('sim',), ('epw', 'toronto')]))
+    return hs
+
+
+CUSTOM_KINDS = {
+    # kind: (customs [(type, era, library source cell)], stock rows with the era text AS WRITTEN)
+    'DOE archetype replaced': ([('largeoffice', 'pst80', (3, 1, 0))],
+                               [('largeoffice', '{0}', 0.4), ('midriseapartment', 'pst80', 0.6)]),
+    'new type': ([('labtower', 'new', (3, 2, 0))], [('labtower', '{0}', 0.5), ('midriseapartment', 'pst80', 0.5)]),
+    'two customs, one not in the stock': ([('largeoffice', 'pst80', (3, 1, 0)), ('annex', 'pre80', (11, 0, 0))],
+                                          [('largeoffice', '{0}', 0.25), ('hospital', 'new', 0.75)]),
+    'custom in two eras': ([('labtower', 'new', (3, 2, 0)), ('labtower', 'pst80', (3, 1, 0))],
+                           [('labtower', '{0}', 0.5), ('labtower', '{1}', 0.5)]),
+}
+ERA_TEXTS = {'pst80': ['pst80', 'Pst80', 'PST80', 'pSt80'], 'new': ['new', 'New', 'NEW', 'nEw'],
+             'pre80': ['pre80', 'Pre80', 'PRE80']}
+
+
+def custom_vectors(uwg, kind):
+    """fresh, equal custom objects on every call (a caller who builds his customs from his own description)"""
+    ref, sch = uwg.UWG.load_refDOE()
+    bv, sv = [], []
+    for n, (t, e, (i, j, k)) in enumerate(CUSTOM_KINDS[kind][0]):
+        b, s_ = copy.deepcopy(ref[i][j][k]), copy.deepcopy(sch[i][j][k])
+        b.bldtype = s_.bldtype = t
+        b.builtera = s_.builtera = e
+        b.building.cop = 2.5 + 0.25 * n
+        b.wall.albedo = 0.35
+        bv.append(b)
+        sv.append(s_)
+    return bv, sv
+
+
+def custom_stock(kind, variant):
+    customs, rows = CUSTOM_KINDS[kind]
+    texts = [ERA_TEXTS[e][variant % len(ERA_TEXTS[e])] for _, e, _ in customs]
+    return [(t, e.format(*texts), f) for t, e, f in rows]
+
+
+def fresh_for(m, outdir, outname, customs=None):
+    """a new object with the CURRENT parameter values of m and its current rural file (S3.fresh_like); with
+    `customs`, the custom reference vectors are those given (equal objects built anew) instead of copies of m's"""
+    if customs is None:
+        return S3.fresh_like(m, outdir, outname)
+    u = U.uwg_mod()
+    f = u.UWG.from_param_file(U.rp(U.PARAM_SGP), epw_path=m.epw_path, new_epw_dir=outdir, new_epw_name=outname)
+    f.ref_bem_vector, f.ref_sch_vector = f._check_reference_data(*customs)
+    f.grasscover = 0
+    f.treecover = 0
+    for a in u.UWG.PARAMETER_LIST:
+        setattr(f, a, copy.deepcopy(getattr(m, a)))
+    f.epw_precision = m.epw_precision
+    return f
+
+
+def history_job(args):
+    """Worker (one history per call, object with the past and its fresh twin in ONE process): returns
+    dict(group, branch, msg, case). Runs in a pool only to keep the wall time of the quick tier down."""
+    import s2_util as S2
+    repo, work, group, idx, label, ops, fam, extra = args
+    os.environ['UWG_REPO'] = repo
+    core.REPO = repo
+    uwg = U.uwg_mod()
+    jobdir = os.path.join(work, 'h%d' % idx)
+    os.makedirs(jobdir, exist_ok=True)
+    ctx = {'family': fam, 'private': os.path.join(jobdir, 'rural_private.epw')}
+    m = base_model(jobdir)
+    customs, after = None, None
+    case = {'history': label}
+    if group == 'failing':
+        initial = {p: copy.deepcopy(getattr(m, p)) for p, _, _ in FAILING}
+        ops = [(o[0], o[1], initial[o[1]]) if o[0] == 'set' and o[2] == '<initial>' else o for o in ops]
+    elif group == 'custom':
+        kind, variant = extra
+        bv, sv = custom_vectors(uwg, kind)
+        before = U.fingerprint([bv, sv])
+        m.bld = list(custom_stock(kind, variant))
+        m.ref_bem_vector, m.ref_sch_vector = m._check_reference_data(bv, sv)
+        ops = [('set', 'bld', custom_stock(kind, variant + 1)) if o == ('restock',) else o for o in ops]
+        customs = custom_vectors(uwg, kind)
+        case.update({'custom_reference_buildings': [(t, e) for t, e, _ in CUSTOM_KINDS[kind][0]], 'kind': kind})
+
+        def after():
+            if hasattr(m, 'BEM'):
+                cross = S2.identity_structure(m.BEM, others=bv)
+                if cross:
+                    return 'the simulated BEM holds the caller\'s own custom objects: %s' % '; '.join(cross[:3])
+            if U.fingerprint([bv, sv]) != before:
+                b = bv[0]
+                return ('the caller\'s custom objects were altered by generate() / simulate() (e.g. %s/%s: indoor '
+                        'temperature %r K, outer wall layer %r K, frac %r)' % (
+                            b.bldtype, b.builtera, b.building.indoor_temp, b.wall.layerTemp[0], getattr(b, 'frac', None)))
+    log = T.apply_history(m, ops, ctx)
+    f = fresh_for(m, jobdir, 'c17f.epw', customs)
+    case.update({'operations': [[repr(x) for x in o] for o in ops] + [['gen'], ['sim']],
+                 'outcome_of_the_calls_in_the_history': log, 'bld_as_written': repr(m.bld),
+                 'rural_file_now': os.path.basename(m.epw_path)})
+    oh, of = T.outcome(m), T.outcome(f)
+    msg = T.compare_outcomes(oh, of)
+    if msg is None and group == 'rural':
+        a = [getattr(x, n, None) for x in (m, f) for n in ('lat', 'lon', 'gmt')]
+        if a[:3] != a[3:]:
+            msg = 'site after generate(): (lat, lon, gmt) = %r on the object with the past, %r on the fresh object' % (
+                tuple(a[:3]), tuple(a[3:]))
+    if msg is None and after:
+        msg = after()
+    case['fresh_object'] = T.outcome_text(of)
+    case['object_with_the_past'] = T.outcome_text(oh)
+    return {'group': group, 'branch': 'final: ' + (oh['stage'] + ' raised' if oh['error'] else 'returned'),
+            'msg': msg, 'case': case}
+
+
+def third_round_histories(chk, work, uwg):
+    import multiprocessing
+    rng = chk.rng
+    quick = chk.tier == 'quick'
+    fam = T.rural_family(work)
+    jobs = []
+
+    def add(group, label, ops, extra=None):
+        jobs.append((core.REPO, work, group, len(jobs), label, ops, fam, extra))
+    for label, ops in failing_histories(rng, quick):
+        add('failing', label, ops)
+    for label, ops in rural_histories(rng, quick, fam):
+        add('rural', label, ops)
+    shapes = [('run twice', [('gen',), ('sim',)]),
+              ('override set, run, unset', [('set', 'glzr', 0.9), ('gen',), ('sim',), ('set', 'glzr', None)]),
+              ('autosize on, run, off', [('set', 'autosize', True), ('gen',), ('sim',), ('set', 'autosize', False)]),
+              ('run, era text of the stock rewritten', [('gen',), ('sim',), ('restock',)])]
+    k = 0
+    for kind in CUSTOM_KINDS:
+        for variant in (range(4) if not quick else [1, 2] if kind in ('DOE archetype replaced', 'new type') else [3]):
+            sname, ops = shapes[k % len(shapes)]
+            k += 1
+            add('custom', '%s; %s; era spelling %d' % (kind, sname, variant), ops, (kind, variant))
+    with multiprocessing.Pool(min(6, len(jobs))) as pool:
+        outs = pool.map(history_job, jobs, chunksize=1)
+    ties = {'failing': 'generate_forgets: history with a failing call vs fresh object',
+            'rural': 'generate_depends_on_params_only: rural file changed vs fresh object',
+            'custom': 'generate_forgets: custom reference buildings, era text in any case, vs fresh object'}
+    cnt = {g: {'n': 0, 'bad': 0, 'br': {}} for g in ties}
+    for o in outs:
+        c = cnt[o['group']]
+        c['n'] += 1
+        c['br'][o['branch']] = c['br'].get(o['branch'], 0) + 1
+        if o['msg']:
+            c['bad'] += 1
+            if c['bad'] <= 2:
+                chk.violation('impl-violation', ties[o['group']], case=o['case'], observed=o['msg'],
+                              expected='the same as a fresh object with the same current parameter values and rural '
+                                       'file: the same call fails with the same exception class, or the same state '
+                                       'digest after generate() and bit-identical hourly records')
+    c1, c2, c3 = cnt['failing'], cnt['rural'], cnt['custom']
+    chk.direct('failing-call-histories-vs-fresh(stage, exception, digest, records)', c1['n'], c1['n'],
+               'a parameter that makes generate() or simulate() fail, set AFTER a successful generate; simulate - '
+               'droad deeper than the ground-temperature depths (4.5, 10 m), dtsim 7 / 1800, h_ref 5, h_wind 0, h_obs 0, '
+               'windmin 0, bldheight 1000, sensanth 1e5, blddensity 0, charlength 0, kroad 0, nday 0, dtweather 7200, an '
+               'unknown building type - in four shapes: run, then the value; run, the value, the failing calls, the '
+               'value set back; the value first, failing calls (and write_epw), set back; run, the value, failed '
+               'generate, set back and ANOTHER failing value. The final generate(); simulate() must do exactly what it '
+               'does on a fresh object with the same parameters: fail at the same call with the same exception class '
+               '(same number of records stored), or return with the same digest and records', mismatches=c1['bad'],
+               branches=c1['br'])
+    chk.direct('rural-file-histories-vs-fresh(header parts, data rows, other climates; by path and in place)', c2['n'],
+               c2['n'],
+               'the rural file changes between two generate() calls - epw_path assigned to another file, or the CONTENT '
+               'of the named file replaced - from the shipped Singapore file to X and from X back, for X = copies that '
+               'differ in ONE interpreted header part (LOCATION latitude / longitude / time zone / elevation / all four / '
+               'city text only; ground temperatures 6 K lower / depths 1-3-6 m / a single depth), in the data rows, '
+               'and the shipped Toronto and Boston files; some with a simulate() in between, two changes in a row: '
+               'state digest after generate() (incl. lat, lon, gmt, RSM, ground-temperature tables), the site read '
+               'back and the hourly records vs a fresh object constructed on the current file', mismatches=c2['bad'],
+               branches=c2['br'])
+    chk.direct('custom-era-case-histories-vs-fresh(digest, records, caller\'s objects)', c3['n'], c3['n'],
+               'objects with custom reference buildings - a DOE archetype replaced, a new type, two customs of which one '
+               'is not in the stock, one new type in two eras - whose stock rows write the era as pst80 / Pst80 / PST80 / '
+               'pSt80 (new / New / NEW / nEw), through: run twice; override set, run, unset; autosize on, run, off; run, '
+               'then the stock re-assigned with another spelling of the era: final generate(); simulate() vs a fresh '
+               'object carrying EQUAL customs built anew from the same description (not copies of the possibly used '
+               'objects); BEM shares no object with the caller\'s customs; the caller\'s BEMDef / SchDef objects have the '
+               'same deep digest after the whole history as before', mismatches=c3['bad'], branches=c3['br'])
+
+
 def run(chk):
     chk.proof(MODULE, THEOREMS)
     if chk.tier == 'thorough':
@@ -514,6 +767,7 @@ def run(chk):
                'deep bit-exact digest of every object a simulation starts from, after history+generate vs fresh',
                mismatches=bad2)
     extended_histories(chk, work, uwg)
+    third_round_histories(chk, work, uwg)
     chk.assumptions.append('the physics is uninterpreted in the theorem (any machine); the tie checks that the '
                            'real generate() has the modelled shape (reload pristine library, apply current '
                            'parameters) on generated histories')
